@@ -164,6 +164,9 @@ def _apply_faults(faults, idx, x, val):
     for f in faults:
         if not _fault_applies(f, idx, x):
             continue
+        if f["val"] == "raise":
+            # the user function fails with an exception of its own
+            raise ArithmeticError("injected failure of a user function")
         fv = _FVAL[f["val"]]
         if np.ndim(val) == 0:
             val = fv
